@@ -10,6 +10,9 @@ mod c09;
 mod c01;
 mod c03;
 mod c14;
+mod c06;
+mod c19;
+mod c10;
 
 fn main() {
     let args: Vec<String> = std::env::args().collect();
@@ -68,6 +71,9 @@ fn generate(prop: &str, seed: u64, thorough: bool) -> Vec<serde_json::Value> {
         "C03" | "C04" | "C15" => c03::generate(prop, seed, thorough),
         "C12" => c08::generate_c12(seed, thorough),
         "C14" => c14::generate(seed, thorough),
+        "C06" => c06::generate(seed, thorough),
+        "C19" => c19::generate(seed, thorough),
+        "C10" => c10::generate(seed, thorough),
         other => { eprintln!("unknown property {}", other); std::process::exit(2); }
     }
 }
@@ -82,6 +88,9 @@ fn run_case(prop: &str, id: usize, input: &serde_json::Value) {
         "C01" | "C02" | "C17" => c01::run_case(id, input),
         "C03" | "C04" | "C15" => c03::run_case(id, input),
         "C14" => c14::run_case(id, input),
+        "C06" => c06::run_case(id, input),
+        "C19" => c19::run_case(id, input),
+        "C10" => c10::run_case(id, input),
         other => { eprintln!("unknown property {}", other); std::process::exit(2); }
     }
 }
